@@ -27,7 +27,8 @@ RULE = ('(a) valid LUAGEN programs of the dialect x free / one-statement-per-lin
         'token left; distinct by (source, indent, writer).'
         ' Every library run writes the same Lua object twice; if the second output differs it is the one judged. LUAGEN strings include multi-line long strings whose inner lines end in blanks/tabs.'
         ' LUAGEN strings include long strings with blank-only interior lines.'
-        " Comment words include backslash sequences (\\n, \\p, \\1, \\g<0>) and the editor's tab separator -->8.")
+        " Comment words include backslash sequences (\\n, \\p, \\1, \\g<0>) and the editor's tab separator -->8."
+        ' Part "line_ends": eleven line-scoped shapes (short-if with bare return / break / goto / else, ? print, end-of-line and block comments, nested short-if, if-do) each under LF, CR LF and CR line ends.')
 ASSUMPTIONS = ['lexical rules are represented by vlib/reflex.py', 'string literals may be re-spelled with equal denotation '
                '(the codebase\'s contract for strings is C06)',
                'for clause (c) the precondition "not parsed to its end" is evaluated with picotool\'s own root.end_pos']
